@@ -83,13 +83,13 @@ def make_kexinits(rng, thorough):
     for i in range(80 if thorough else 25):
         try:
             out.append(SshKeyExchangeInit(
-                kex_algorithms=pick(SshKexAlgorithm, ['kex-unknown@example.com', 'x']),
-                host_key_algorithms=pick(SshHostKeyAlgorithm, ['hostkey-unknown']),
-                encryption_algorithms_client_to_server=pick(SshEncryptionAlgorithm, ['enc@unknown', 'aes999-ctr']),
+                kex_algorithms=pick(SshKexAlgorithm, ['kex-unknown@example.com', 'x', 'Curve25519-SHA256', 'DIFFIE-HELLMAN-GROUP14-SHA1']),
+                host_key_algorithms=pick(SshHostKeyAlgorithm, ['hostkey-unknown', 'SSH-RSA', 'Ssh-Ed25519']),
+                encryption_algorithms_client_to_server=pick(SshEncryptionAlgorithm, ['enc@unknown', 'aes999-ctr', 'AES128-CTR', 'Aes256-Gcm@openssh.com']),
                 encryption_algorithms_server_to_client=pick(SshEncryptionAlgorithm, ['enc2@unknown']),
-                mac_algorithms_client_to_server=pick(SshMacAlgorithm, ['mac-x']),
+                mac_algorithms_client_to_server=pick(SshMacAlgorithm, ['mac-x', 'HMAC-SHA2-256', 'Hmac-Sha1']),
                 mac_algorithms_server_to_client=pick(SshMacAlgorithm, ['mac-y@z']),
-                compression_algorithms_client_to_server=pick(SshCompressionAlgorithm, ['zlib9']),
+                compression_algorithms_client_to_server=pick(SshCompressionAlgorithm, ['zlib9', 'ZLIB', 'None']),
                 compression_algorithms_server_to_client=pick(SshCompressionAlgorithm, []),
                 cookie=bytearray(rng.randrange(256) for _ in range(16)),
                 first_kex_packet_follows=rng.choice([0, 1]), reserved=rng.choice([0, 1, 2 ** 32 - 1])))
